@@ -111,12 +111,24 @@ theorem getterPureB_sound {c : OpCall} (h : getterPureB c = true) : GetterPure c
     exact ⟨gs, hg, by simpa [List.all_eq_true] using h⟩
   · cases h
 
+theorem setterDeclaresB_sound {c : OpCall} (h : setterDeclaresB c = true) : SetterDeclares c := by
+  unfold setterDeclaresB at h
+  split at h
+  · rename_i ts hts
+    refine ⟨ts, hts, ?_⟩
+    intro t ht i s ctx heq hsimple
+    subst heq
+    have := List.all_eq_true.mp h _ ht
+    simp only [hsimple, Bool.false_or, List.contains_eq_mem, decide_eq_true_eq] at this
+    exact this
+  · cases h
+
 theorem callOkB_sound {c : OpCall} (h : callOkB c = true) : Good c := by
   unfold callOkB at h
   simp only [Bool.and_eq_true] at h
-  obtain ⟨⟨⟨⟨⟨h1, h2⟩, h3⟩, h4⟩, h5⟩, h6⟩ := h
+  obtain ⟨⟨⟨⟨⟨⟨h1, h2⟩, h3⟩, h4⟩, h5⟩, h6⟩, h7⟩ := h
   exact ⟨lengthsB_sound h1, positionsB_sound h2, arityB_sound h3, noutsB_sound h4, distinctB_sound h5,
-    getterPureB_sound h6⟩
+    getterPureB_sound h6, setterDeclaresB_sound h7⟩
 
 theorem contractOk_sound' {g : ParsedOutput} (h : contractOk g = true) :
     ∀ o ∈ emitted g, ∃ c, o = some c ∧ Good c := by
